@@ -31,6 +31,10 @@ impl Display for Key {
 #[derive(Debug, Serialize, Deserialize)]
 struct CachedFileInfo {
     modified_timestamp_ms: u64,
+    /// Tells apart the file from another file that got its identifier (inode number) after
+    /// this one was removed. The modification time can't: it can be set, and programs that
+    /// extract archives or synchronize directories set it to the time recorded there.
+    changed_timestamp_ms: u64,
     file_len: FileLen,
     data_len: FileLen,
     hash: FileHash,
@@ -57,6 +61,23 @@ fn timestamp_ms(timestamp: SystemTime) -> u64 {
     match timestamp.duration_since(UNIX_EPOCH) {
         Ok(since_epoch) => since_epoch.as_millis() as u64,
         Err(e) => u64::MAX - e.duration().as_millis() as u64,
+    }
+}
+
+/// Returns the time of the last change of the file status (creation, link count, owner, ...)
+/// on Unix, or the creation time of the file elsewhere, in milliseconds.
+/// A program cannot set it back.
+fn changed_timestamp_ms(file: &FileMetadata) -> u64 {
+    #[cfg(unix)]
+    {
+        use std::os::unix::fs::MetadataExt;
+        (file.ctime() as u64)
+            .wrapping_mul(1000)
+            .wrapping_add(file.ctime_nsec() as u64 / 1_000_000)
+    }
+    #[cfg(not(unix))]
+    {
+        file.created().map(timestamp_ms).unwrap_or(0)
     }
 }
 
@@ -101,7 +122,8 @@ impl HashCache {
             )
         })?;
 
-        let tree_id = format!("hash_db:{:?}:{}", algorithm, transform.unwrap_or("<none>"));
+        // "2" stands for the layout of the entries, the entries of older versions are not read
+        let tree_id = format!("hash_db2:{:?}:{}", algorithm, transform.unwrap_or("<none>"));
         let cache = Arc::new(typed_sled::Tree::open(&db, tree_id));
         let flusher = HashCacheFlusher::start(&cache);
         Ok(HashCache { cache, flusher })
@@ -136,6 +158,7 @@ impl HashCache {
         }
         let value = CachedFileInfo {
             modified_timestamp_ms: timestamp_ms(modified),
+            changed_timestamp_ms: changed_timestamp_ms(file),
             file_len: file.len(),
             data_len,
             hash,
@@ -177,7 +200,10 @@ impl HashCache {
                 .map_err(|e| format!("Unable to get file modification timestamp: {e}"))?,
         );
 
-        if value.modified_timestamp_ms != modified || value.file_len != metadata.len() {
+        if value.modified_timestamp_ms != modified
+            || value.changed_timestamp_ms != changed_timestamp_ms(metadata)
+            || value.file_len != metadata.len()
+        {
             Ok(None) // found in cache, but the file has changed since it was cached
         } else {
             Ok(Some((value.data_len, value.hash)))
